@@ -36,8 +36,14 @@ var c08LClasses = []c08LClass{
 	{"opquoted", "os", []any{"a<=b", "x=1", "p!=q", "k>v", "plain"}, []string{"'a<=b'", "\"x=1\"", "'p!=q'", "'k>v'", "'plain'"}, []string{"=", "!="}},
 	{"kwquoted", "ks", []any{"salt and pepper", "this or that", "AND", "plain"}, []string{"'salt and pepper'", "\"this or that\"", "'AND'", "'plain'"}, []string{"=", "!="}},
 	{"quoteinside", "qs", []any{"it's", "say \"hi\"", "plain"}, []string{"\"it's\"", "'say \"hi\"'", "'plain'"}, []string{"=", "!="}},
-	{"mixed", "mx", []any{5.0, "5", []any{"5", "x"}, []any{5.0}, "red", 6.0, "6", true, "true"}, []string{"5", "'5'", "6", "'6'", "'red'", "true", "7"}, []string{"=", "!="}},
+	{"mixed", "mx", []any{5.0, "5", []any{"5", "x"}, []any{5.0}, "red", 6.0, "6", true, "true", nil, map[string]any{"a": 1.0}}, []string{"5", "'5'", "6", "'6'", "'red'", "true", "7"}, []string{"=", "!="}},
 	{"emptystr", "es", []any{"", "plain"}, []string{"''", "\"\"", "'plain'"}, []string{"=", "!="}},
+	// Go-typed collections as an embedding caller passes them (sibling of goint / D60;
+	// repaired in /repo c57f435: the value is brought to its JSON shape when it is stored). float32
+	// elements are exactly representable on purpose (float32(0.1) is another number than the
+	// 0.1 its JSON text reads back as - a genuine difference, not an index matter).
+	{"golist", "gl", []any{[]string{"red", "blue"}, []string{"green"}, []any{"red"}, []int{1, 2}, []float64{2.5}, []float32{2.5, 1}, []string{}, [2]string{"red", "k"}, map[string]string{"k": "v"}, []bool{true}},
+		[]string{"'red'", "'green'", "'blue'", "1", "2", "2.5", "'k'", "'v'", "true"}, []string{"=", "!="}},
 }
 
 func c08Lenient(ctx *vkit.Ctx, cs *vkit.Case) {
@@ -80,7 +86,7 @@ func c08Lenient(ctx *vkit.Ctx, cs *vkit.Case) {
 		model[id] = vexec.NormMeta(m)
 	}
 	// a later overwrite of a Go-int field with another Go int / float (old entry removal)
-	for i := 0; i < 3; i++ {
+	for i := 0; i < 4; i++ {
 		id := fmt.Sprintf("v%d", r.Intn(n))
 		c := vkit.Pick(r, c08LClasses)
 		props := map[string]any{c.key: vkit.Pick(r, c.vals)}
